@@ -9,6 +9,7 @@ import RigModel.Lemmas.C02Init
 import RigModel.Lemmas.C02SA
 import RigModel.Lemmas.C02Doc
 import RigModel.Lemmas.C02Complete2
+import RigModel.Lemmas.C02Hilbert
 set_option linter.unusedSimpArgs false
 set_option linter.unusedVariables false
 
@@ -711,7 +712,7 @@ private theorem unit_setup {vr : VR} {cs : List Constraint} {m m' : Machine} {fi
     (hunit : ∀ v d, (v, d) ∈ vr → UnitDem r0 d)
     (hprep : prepareLoop vr cs m [] = .ok (m', fixed)) :
     applySame vr cs = .ok (vr, cs, []) ∧ NN m' ∧
-    (∀ v ∈ keys vr, ∃ d, aget vr v = some d ∧ UnitDem r0 d) := by
+    (∀ v ∈ keys vr, ∃ d, aget vr v = some d ∧ UnitDem r0 d) ∧ ∀ c, m'.ok c = m.ok c := by
   have hA : applySame vr cs = .ok (vr, cs, []) := applySameLoop_noSame vr cs [] hnosame _ _
   have hnn : NonNegVR vr := by
     intro v d hvd i
@@ -720,7 +721,7 @@ private theorem unit_setup {vr : VR} {cs : List Constraint} {m m' : Machine} {fi
     · subst e; rcases hu.2 with h | h <;> omega
     · rw [hu.1 i e]; omega
   have I := inv_after_prepare hnodup hnn hcap hprep
-  refine ⟨hA, fun c hc => I.nonneg c (by rw [← I.ok_eq]; exact hc), fun v hv => ?_⟩
+  refine ⟨hA, fun c hc => I.nonneg c (by rw [← I.ok_eq]; exact hc), fun v hv => ?_, I.ok_eq⟩
   have := (aget_isSome_iff vr v).2 hv
   cases hx : aget vr v with
   | none => simp [hx] at this
@@ -739,7 +740,7 @@ theorem randPlace_complete_unit (vr : VR) (cs : List Constraint) (m m' : Machine
     (hne : m'.chips ≠ [])
     (hsuff : needOf fixed vr r0 (keys vr) ≤ total m' m'.chips r0) :
     (∃ p, randPlace vr cs m picks = .ok p) ∨ randPlace vr cs m picks = .error .badOracle := by
-  obtain ⟨hA, hNN, hunit'⟩ := unit_setup hnodup hcap hnosame hunit hprep
+  obtain ⟨hA, hNN, hunit', _⟩ := unit_setup hnodup hcap hnosame hunit hprep
   unfold randPlace
   simp only [hA, hprep, bind, Except.bind]
   rw [needOf_filter] at hsuff
@@ -767,7 +768,7 @@ theorem saPlace_initial_complete_unit (vr : VR) (cs : List Constraint) (m m' : M
     (hne : m'.chips ≠ [])
     (hsuff : needOf fixed vr r0 (keys vr) ≤ total m' m'.chips r0) :
     ∃ p, saPlace vr cs m locs vs none = .ok (p, []) := by
-  obtain ⟨hA, hNN, hunit'⟩ := unit_setup hnodup hcap hnosame hunit hprep
+  obtain ⟨hA, hNN, hunit', _⟩ := unit_setup hnodup hcap hnosame hunit hprep
   unfold saPlace
   split
   · exact ⟨[], rfl⟩
@@ -784,6 +785,60 @@ theorem saPlace_initial_complete_unit (vr : VR) (cs : List Constraint) (m m' : M
       obtain ⟨m'', init⟩ := out
       simp only [initialPlacement, hout]
       exact ⟨mergeP init fixed, by simp [finalise, finaliseFrom, mergeP]⟩
+
+/-! ### the Hilbert placer -/
+
+/-- **The model of `hilbert(level)` is a Hilbert curve**: for EVERY level it visits every point of
+the `2^level x 2^level` square, and no point twice (in particular it has no point with a negative
+coordinate). -/
+theorem hilbert_curve_exact (L : Nat) :
+    (hilbertPts L).Nodup ∧
+    ∀ q : Int × Int, q ∈ hilbertPts L ↔ 0 ≤ q.1 ∧ q.1 < 2 ^ L ∧ 0 ≤ q.2 ∧ q.2 < 2 ^ L :=
+  hilbertPts_spec L
+
+/-- **Hilbert chip-order coverage**: for EVERY `w x h` machine `hilbert_chip_order` lists every chip
+of the machine, and no chip twice. -/
+theorem hilbert_covers (w h : Nat) :
+    (hilbertChips w h).Nodup ∧ ∀ x y, x < w → y < h → (x, y) ∈ hilbertChips w h :=
+  hilbertChips_cover w h
+
+/-- **Completeness of the Hilbert placer under the unit-demand hypothesis** - `seqPlace_complete_unit`
+with the coverage hypotheses on the chip order discharged: the total is that of `list(machine)`. -/
+theorem hilbertPlace_complete_unit (vr : VR) (cs : List Constraint) (m m' : Machine) (fixed : Placement)
+    (vertexOrder : Option (List Vtx)) (r0 : Nat)
+    (hnodup : (keys vr).Nodup) (hcap : NonNegCap m)
+    (hnosame : ∀ vs, Constraint.same vs ∉ cs)
+    (hunit : ∀ v d, (v, d) ∈ vr → UnitDem r0 d)
+    (hprep : prepareLoop vr cs m [] = .ok (m', fixed))
+    (hknown : ∀ v ∈ vertexOrder.getD (keys vr), v ∈ keys vr)
+    (hne : m'.chips ≠ [])
+    (hsuff : needOf fixed vr r0 (vertexOrder.getD (keys vr)) ≤ total m' m'.chips r0) :
+    ∃ p, seqPlace vr cs m vertexOrder (some (hilbertChips m.w m.h)) = .ok p := by
+  obtain ⟨_, _, _, hokeq⟩ := unit_setup hnodup hcap hnosame hunit hprep
+  obtain ⟨hnd, hcov⟩ := hilbertChips_cover m.w m.h
+  have hmem : ∀ c, c ∈ (hilbertChips m.w m.h).filter m'.ok ↔ m'.ok c = true := by
+    intro c
+    rw [List.mem_filter]
+    constructor
+    · exact fun h => h.2
+    · intro h
+      refine ⟨?_, h⟩
+      have h' := h
+      rw [hokeq] at h'
+      simp only [Machine.ok, Bool.and_eq_true, decide_eq_true_eq] at h'
+      exact hcov c.1 c.2 h'.1.1 h'.1.2
+  have hnd' : ((hilbertChips m.w m.h).filter m'.ok).Nodup := List.Nodup.sublist List.filter_sublist hnd
+  apply seqPlace_complete_unit vr cs m m' fixed vertexOrder (some (hilbertChips m.w m.h)) r0 hnodup hcap
+    hnosame hunit hprep hknown
+  · simpa using hnd'
+  · simp only [Option.getD_some]
+    obtain ⟨c, hc⟩ := List.exists_mem_of_ne_nil _ hne
+    intro e
+    have := (hmem c).2 ((mem_chips_iff m' c).1 hc)
+    rw [e] at this; simp at this
+  · simp only [Option.getD_some]
+    rw [total_cover m' r0 _ hnd' hmem]
+    exact hsuff
 
 /-! ### non-vacuity: a problem with a same-chip group whose two members are both pinned (to the
 same chip), a global reservation, a resource exception, a custom vertex order and chip order
@@ -985,6 +1040,15 @@ example : ∃ p, saPlace unVR unCS unM [(1, 0), (0, 0)] [o 2, o 1] none = .ok (p
   saPlace_initial_complete_unit unVR unCS unM { unM with res := [1], exc := [((0, 0), [0])] } [(o 0, (0, 0))]
     [(1, 0), (0, 0)] [o 2, o 1] 0 (by decide) unCapNN (by intro vs h; simp [unCS] at h) unUnit (by rfl)
     (by decide) (by decide) (by decide) (by decide)
+
+/-- the Hilbert order of a 3 x 2 machine (level 2: the curve of the 4 x 4 square) -/
+example : hilbertChips 3 2 = [(0, 0), (1, 0), (1, 1), (0, 1), (0, 2), (0, 3), (1, 3), (1, 2), (2, 2), (2, 3),
+    (3, 3), (3, 2), (3, 1), (2, 1), (2, 0), (3, 0)] := by decide
+
+example : ∃ p, seqPlace unVR unCS unM none (some (hilbertChips unM.w unM.h)) = .ok p :=
+  hilbertPlace_complete_unit unVR unCS unM { unM with res := [1], exc := [((0, 0), [0])] } [(o 0, (0, 0))]
+    none 0 (by decide) unCapNN (by intro vs h; simp [unCS] at h) unUnit (by rfl) (by intro v hv; exact hv)
+    (by decide) (by decide)
 
 end example_
 
